@@ -937,6 +937,21 @@ Inductive action :=
 | ABulk (name : str) (t : value) (rows : value) (cols : list (value * list value))      (* Bulk*/ReplaceTableData/TableData *)
 | AOther (name : str) (fields : list value).                                             (* passed through unencoded *)
 
+(* actions.convert_action_values: which action classes carry cell values (one per column / a list per column).
+   gen/Actions_gen.v reads the same two lists off actions.py on every run; Props/C24.v proves them equal. *)
+Definition single_kinds : list str := [Str "AddRecord"; Str "UpdateRecord"].
+Definition bulk_kinds : list str := [Str "BulkAddRecord"; Str "BulkUpdateRecord"; Str "ReplaceTableData"; Str "TableData"].
+
+(* the constructor an action of class `name` with the given fields is modelled by *)
+Definition action_of (name : str) (fields : list value) (cols1 : list (value * value)) (colsn : list (value * list value)) : action :=
+  match fields with
+  | t :: r :: _ =>
+      if str_mem name single_kinds then ARecord name t r cols1
+      else if str_mem name bulk_kinds then ABulk name t r colsn
+      else AOther name fields
+  | _ => AOther name fields
+  end.
+
 Definition action_repr (fuel : nat) (a : action) : value :=
   match a with
   | ARecord name t row cols =>
